@@ -59,20 +59,19 @@ def delegation_ref(s, b, meth, fam):
     return s.ref(b, src, bind)
 
 
-def check(s):
+def check_delegation(s, rule="C13.1", methods=METHODS):
+    """Every exported wrapper's method is the inner environment's (with only the declared transformation applied)."""
     P = s.prog
     self_ = ("param", "self")
     wrappers = [c for c in P.concrete_exported("lerax.wrapper")]
-    if len(wrappers) < 11:
-        raise AnalysisError(f"expected >= 11 exported concrete wrappers, found {len(wrappers)}")
     # ---------------------------------------------------------------- C13.1
     for ci in wrappers:
         fam = family(P, ci)
-        for meth in METHODS:
+        for meth in methods:
             r = P.resolve_method(ci, meth)
             con = f"{ci.name}.{meth}"
             if r is None or r[0].is_abstractmethod(meth):
-                s.ob("C13.1", con, False, "the wrapper implements the method", P.loc(ci.module, ci.node), key="missing-method")
+                s.ob(rule, con, False, "the wrapper implements the method", P.loc(ci.module, ci.node), key="missing-method")
                 continue
             dc, fn = r
             loc = P.loc(dc.module, fn)
@@ -86,14 +85,14 @@ def check(s):
                 for p in paths:
                     f = fields(p.ret)
                     ok = isinstance(p.ret, tuple) and p.ret[0] == "record" and p.ret[1].endswith("State")
-                    s.ob("C13.1", con, ok and nz.canon(f.get("env_state", NONE)) == nz.canon(want),
+                    s.ob(rule, con, ok and nz.canon(f.get("env_state", NONE)) == nz.canon(want),
                          f"{meth} re-wraps exactly the inner environment's {meth}" + (" of self.func(action)" if fam == "action" and meth == "transition" else ""),
                          loc, key="delegation", detail=f"got {show(p.ret, maxlen=240)}\nwant env_state = {show(want, maxlen=200)}",
                          necessary_for="a wrapped environment behaves as the inner environment with only the declared change applied")
                     extra = {k: v for k, v in f.items() if k != "env_state"}
                     if fam == "timelimit":
                         continue  # counter: C13.4
-                    s.ob("C13.1", con, not extra, "the wrapper state carries nothing but the inner state", loc, key="extra-state", detail=str(sorted(extra)))
+                    s.ob(rule, con, not extra, "the wrapper state carries nothing but the inner state", loc, key="extra-state", detail=str(sorted(extra)))
                 continue
             if meth == "action_mask" and fam == "action":
                 none_paths = [p for p in paths if p.ret == NONE]
@@ -103,16 +102,54 @@ def check(s):
                     t, v = none_paths[0].conds[-1]
                     ok = v and nz.canon(t) == nz.canon(("cmp", "Is", want, NONE))
                     ok = ok and nz.canon(other[0].ret) == nz.canon(("call", ("attr", self_, "mask_func"), (want,), ()))
-                s.ob("C13.1", con, ok, "action_mask: None stays None; otherwise self.mask_func(inner mask)", loc, key="mask-delegation",
+                s.ob(rule, con, ok, "action_mask: None stays None; otherwise self.mask_func(inner mask)", loc, key="mask-delegation",
                      detail="; ".join(show(p.ret, maxlen=160) for p in paths))
                 continue
             if meth == "truncate" and fam == "timelimit":
                 continue  # C13.4
             for p in paths:
-                s.eq("C13.1", con, nz, p.ret, want,
+                s.eq(rule, con, nz, p.ret, want,
                      f"{meth} == " + ("declared transformation of " if (fam, meth) in (("observation", "observation"), ("reward", "reward")) else "")
                      + f"the inner environment's {meth}" + (" on self.func(action)" if fam == "action" and meth in ("reward", "transition_info") else ""),
                      loc, key="delegation", necessary_for="dynamics, reward and info alike see the mapped action; everything else passes through unchanged")
+
+
+def check_timelimit(s, rule="C13.4"):
+    """TimeLimit closed form: count starts at 0, +1 per transition, truncate = inner truncate | count >= N."""
+    self_ = ("param", "self")
+    # ---------------------------------------------------------------- C13.4 TimeLimit closed form
+    b = s.builder(inline=set())
+    nz = Normalizer(b, int_terms=[("attr", ("p", "state"), "step_count")])  # TimeLimitState.step_count: Int[Array, ""]
+    loc = s.loc("TimeLimit", "truncate")
+    pi = one(s.paths(b, "TimeLimit", "initial"), "TimeLimit.initial")
+    pt = one(s.paths(b, "TimeLimit", "transition"), "TimeLimit.transition")
+    ptr = one(s.paths(b, "TimeLimit", "truncate"), "TimeLimit.truncate")
+    c0 = nz.canon(fields(pi.ret).get("step_count", NONE))
+    s.ob(rule, "TimeLimit.initial", c0 == ("k", 0), "a fresh episode starts with step_count == 0 (the count restarts on reset)", s.loc("TimeLimit", "initial"),
+         key="initial-count", detail=show_term(c0), necessary_for="TimeLimit restarts its count on reset")
+    inc = nz.canon(fields(pt.ret).get("step_count", NONE))
+    want_inc = nz.canon(s.ref(b, "state.step_count + 1", {"state": ("param", "state")}))
+    s.ob(rule, "TimeLimit.transition", inc == want_inc, "each transition adds exactly 1 to step_count", s.loc("TimeLimit", "transition"), key="increment",
+         detail=show_term(inc), necessary_for="truncation at exactly the N-th step")
+    want_tr = s.ref(b, "self.env.truncate(state.env_state) | (state.step_count >= self.max_episode_steps)", {"self": self_, "state": ("param", "state")})
+    alt_tr = s.ref(b, "self.env.truncate(state.env_state) | (state.step_count > self.max_episode_steps - 1)", {"self": self_, "state": ("param", "state")})
+    got = nz.canon(ptr.ret)
+    s.ob(rule, "TimeLimit.truncate", got in (nz.canon(want_tr), nz.canon(alt_tr)),
+         "truncate == inner truncate | (step_count >= max_episode_steps): with c0 = 0 and increment 1 it first fires at step N, never earlier or later", loc,
+         key="truncate-predicate", detail=f"code: {show_term(got, 400)}\nreference: {show_term(nz.canon(want_tr), 400)}",
+         necessary_for="TimeLimit(N) raises truncation at exactly the N-th step; the inner truncation is preserved")
+    pc = one(s.paths(b, "TimeLimit", "__init__"), "TimeLimit.__init__")
+    s.ob(rule, "TimeLimit.__init__", nz.canon(pc.self_attrs.get("max_episode_steps", NONE)) in (("p", "max_episode_steps"), ("cast", "int", ("p", "max_episode_steps"))),
+         "max_episode_steps is stored unchanged", s.loc("TimeLimit", "__init__"), key="stores-N", detail=show(pc.self_attrs.get("max_episode_steps", NONE)))
+
+
+def check(s):
+    P = s.prog
+    self_ = ("param", "self")
+    wrappers = [c for c in P.concrete_exported("lerax.wrapper")]
+    if len(wrappers) < 11:
+        raise AnalysisError(f"expected >= 11 exported concrete wrappers, found {len(wrappers)}")
+    check_delegation(s)
     # ---------------------------------------------------------------- C13.2 spaces
     for ci in wrappers:
         fam = family(P, ci)
@@ -158,30 +195,7 @@ def check(s):
     s.control(f"positive control: AbstractWrapper has abstract variables {sorted(av)}")
     if not {"env", "action_space", "observation_space"} <= av:
         raise AnalysisError("positive control failed: AbstractWrapper should have abstract variables env/action_space/observation_space")
-    # ---------------------------------------------------------------- C13.4 TimeLimit closed form
-    b = s.builder(inline=set())
-    nz = Normalizer(b, int_terms=[("attr", ("p", "state"), "step_count")])  # TimeLimitState.step_count: Int[Array, ""]
-    loc = s.loc("TimeLimit", "truncate")
-    pi = one(s.paths(b, "TimeLimit", "initial"), "TimeLimit.initial")
-    pt = one(s.paths(b, "TimeLimit", "transition"), "TimeLimit.transition")
-    ptr = one(s.paths(b, "TimeLimit", "truncate"), "TimeLimit.truncate")
-    c0 = nz.canon(fields(pi.ret).get("step_count", NONE))
-    s.ob("C13.4", "TimeLimit.initial", c0 == ("k", 0), "a fresh episode starts with step_count == 0 (the count restarts on reset)", s.loc("TimeLimit", "initial"),
-         key="initial-count", detail=show_term(c0), necessary_for="TimeLimit restarts its count on reset")
-    inc = nz.canon(fields(pt.ret).get("step_count", NONE))
-    want_inc = nz.canon(s.ref(b, "state.step_count + 1", {"state": ("param", "state")}))
-    s.ob("C13.4", "TimeLimit.transition", inc == want_inc, "each transition adds exactly 1 to step_count", s.loc("TimeLimit", "transition"), key="increment",
-         detail=show_term(inc), necessary_for="truncation at exactly the N-th step")
-    want_tr = s.ref(b, "self.env.truncate(state.env_state) | (state.step_count >= self.max_episode_steps)", {"self": self_, "state": ("param", "state")})
-    alt_tr = s.ref(b, "self.env.truncate(state.env_state) | (state.step_count > self.max_episode_steps - 1)", {"self": self_, "state": ("param", "state")})
-    got = nz.canon(ptr.ret)
-    s.ob("C13.4", "TimeLimit.truncate", got in (nz.canon(want_tr), nz.canon(alt_tr)),
-         "truncate == inner truncate | (step_count >= max_episode_steps): with c0 = 0 and increment 1 it first fires at step N, never earlier or later", loc,
-         key="truncate-predicate", detail=f"code: {show_term(got, 400)}\nreference: {show_term(nz.canon(want_tr), 400)}",
-         necessary_for="TimeLimit(N) raises truncation at exactly the N-th step; the inner truncation is preserved")
-    pc = one(s.paths(b, "TimeLimit", "__init__"), "TimeLimit.__init__")
-    s.ob("C13.4", "TimeLimit.__init__", nz.canon(pc.self_attrs.get("max_episode_steps", NONE)) in (("p", "max_episode_steps"), ("cast", "int", ("p", "max_episode_steps"))),
-         "max_episode_steps is stored unchanged", s.loc("TimeLimit", "__init__"), key="stores-N", detail=show(pc.self_attrs.get("max_episode_steps", NONE)))
+    check_timelimit(s)
     # ---------------------------------------------------------------- C13.5 rescale / clip
     check_rescale(s)
     check_constructors(s)
